@@ -1,6 +1,7 @@
 // C09 driver.  (compiled with the atomic prelude for mode "gate"; the other modes run free)
 //   qidx           : tickets -> lane index(k), lane ticket k & -n_queue of the real queue representation
 //   gate           : concurrent_queue<int> under a given interleaving; prints the invocation/response history
+//   bgate          : concurrent_bounded_queue<int> (try_push/try_pop) under a given interleaving; counter trace + history
 //   mt Q T seed n  : real threads, Q=0 concurrent_queue / 1 concurrent_bounded_queue(cap); FIFO / conservation oracle
 //   abortwb        : white-box replay of the abort finding on concurrent_bounded_queue (deterministic)
 #include "drv/common.h"
@@ -57,6 +58,55 @@ static int do_gate() {
     return 0;
 }
 
+// bgate: cap, nthreads, per thread (len, (op arg)*), -1, schedule.   op 3 v = try_push(v) | 2 0 = try_pop   on a
+// concurrent_bounded_queue<int> of capacity cap.  output: EV <7 ints>* for every access to head_counter (var 1) /
+// tail_counter (var 2) and every completion note, then HIST <6 ints>* FIN ok LEFT contents
+static int do_bgate() {
+    std::vector<i128> c;
+    while (read_case(c)) {
+        gate::reset();
+        auto* q = new tbb::concurrent_bounded_queue<int>();
+        size_t p = 0; long cap = (long)c[p++]; q->set_capacity(cap);
+        gate::reg_var(&q->my_queue_representation->head_counter, 1);
+        gate::reg_var(&q->my_queue_representation->tail_counter, 2);
+        struct Rec { int tid, op; long arg, res; long inv, resp; };
+        std::vector<Rec> hist;
+        int n = (int)c[p++];
+        for (int t = 0; t < n; ++t) {
+            int len = (int)c[p++]; std::vector<std::pair<int, long>> sc;
+            for (int k = 0; k < len; ++k) { int op = (int)c[p++]; long a = (long)c[p++]; sc.push_back({op, a}); }
+            gate::spawn([q, sc, t, &hist] {
+                for (auto& oa : sc) {
+                    long inv = (long)gate::trace.size();
+                    long res = 0;
+                    if (oa.first == 3) res = q->try_push((int)oa.second) ? 1 : 0;
+                    else { int v = -1; res = q->try_pop(v) ? v : -1; }
+                    gate::note(oa.first, oa.first == 3 ? res : (res == -1 ? 0 : 1));
+                    hist.push_back({t, oa.first, oa.second, res, inv, (long)gate::trace.size()});
+                }
+            });
+        }
+        p++;
+        std::vector<int> sched; for (; p < c.size(); ++p) sched.push_back((int)c[p]);
+        bool ok = gate::run(sched, 20000);
+        Out o;
+        o.word("EV");
+        for (auto& e : gate::trace) {
+            if (e.kind == 199) continue;
+            if (e.var != 1 && e.var != 2 && e.kind < 100) continue;
+            o.put(e.tid); o.put(e.var); o.put(e.kind); o.put(e.order); o.put_u64(e.before); o.put_u64(e.after); o.put(e.ok);
+        }
+        o.word("HIST");
+        for (auto& r : hist) { o.put(r.tid); o.put(r.op); o.put(r.arg); o.put(r.res); o.put(r.inv); o.put(r.resp); }
+        o.word("FIN"); o.put(ok ? 1 : 0);
+        if (ok) { o.word("LEFT"); int v; while (q->try_pop(v)) o.put(v); }
+        if (!ok) { o.word("HANG"); o.flush(); _exit(3); }
+        o.flush();
+        delete q;
+    }
+    return 0;
+}
+
 template <class Q> static int mt_run(Q& q, int T, unsigned seed, int nops, bool bounded, long cap) {
     std::atomic<long> bad_order{0}, dup{0}, overcap{0}, pushes_done{0}, pops_started{0}; std::atomic<int> producers_done{0};
     int P = (T + 1) / 2, C = T - P; if (C == 0) C = 1;
@@ -103,6 +153,7 @@ int main(int argc, char** argv) {
     std::string m = argc > 1 ? argv[1] : "";
     if (m == "qidx") return do_qidx();
     if (m == "gate") return do_gate();
+    if (m == "bgate") return do_bgate();
     if (m == "abortwb") return do_abortwb();
     if (m == "mt") {
         int Q = atoi(argv[2]), T = atoi(argv[3]); unsigned seed = (unsigned)atoi(argv[4]); int n = atoi(argv[5]);
